@@ -381,7 +381,30 @@ func readTree(r io.Reader, location string, expansionDepth int) (nodes []Node, s
 		return root.Children, ctx.snippets, ctx.macros, err
 	}
 
+	// Import expansion can place a snippet or file body inside an already
+	// deeply nested block.
+	if err := checkNesting(root.Children, 0); err != nil {
+		return root.Children, ctx.snippets, ctx.macros, err
+	}
+
 	return root.Children, ctx.snippets, ctx.macros, nil
+}
+
+// checkNesting applies the nesting limit of readNodes to an expanded tree.
+// nesting is the number of blocks enclosing nodes.
+func checkNesting(nodes []Node, nesting int) error {
+	for _, node := range nodes {
+		if node.Children == nil {
+			continue
+		}
+		if nesting > 255 {
+			return NodeErr(node, "nesting limit reached")
+		}
+		if err := checkNesting(node.Children, nesting+1); err != nil {
+			return err
+		}
+	}
+	return nil
 }
 
 func Read(r io.Reader, location string) (nodes []Node, err error) {
